@@ -143,6 +143,29 @@ func isMergeKey(keyNode *CandidateNode) bool {
 	return keyNode.Value == "<<" && keyNode.Tag != "!!str"
 }
 
+// an anchored node that, through its content and the aliases in it, leads back to itself
+// cannot be written out without aliases
+func refersToItself(target *CandidateNode) bool {
+	seen := map[*CandidateNode]bool{}
+	var visit func(n *CandidateNode) bool
+	visit = func(n *CandidateNode) bool {
+		if n == nil || seen[n] {
+			return false
+		}
+		seen[n] = true
+		if n.Kind == AliasNode {
+			return n.Alias == target || visit(n.Alias)
+		}
+		for _, child := range n.Content {
+			if visit(child) {
+				return true
+			}
+		}
+		return false
+	}
+	return visit(target)
+}
+
 func reconstructAliasedMap(node *CandidateNode, context Context) error {
 	var newContent = list.New()
 	// can I short cut here by prechecking if there's an anchor in the map?
@@ -199,6 +222,9 @@ func explodeNode(node *CandidateNode, context Context) error {
 	case AliasNode:
 		log.Debugf("explodeNode - an alias to %v", NodeToString(node.Alias))
 		if node.Alias != nil {
+			if refersToItself(node.Alias) {
+				return fmt.Errorf("cannot explode alias *%v: the node it refers to contains itself", node.Value)
+			}
 			node.Kind = node.Alias.Kind
 			node.Style = node.Alias.Style
 			node.Tag = node.Alias.Tag
@@ -253,6 +279,9 @@ func applyAlias(node *CandidateNode, alias *CandidateNode, aliasIndex int, newCo
 	log.Debug("alias: %v", NodeToString(alias))
 	if alias.Kind != MappingNode {
 		return fmt.Errorf("merge anchor only supports maps, got %v instead", alias.Tag)
+	}
+	if refersToItself(alias) {
+		return fmt.Errorf("cannot explode merge key: the map it refers to contains itself")
 	}
 	for index := 0; index < len(alias.Content); index = index + 2 {
 		keyNode := alias.Content[index]
